@@ -95,6 +95,7 @@ func init() {
 
 func runC14(c *Ctx) {
 	p := c.P
+	checkWrapperNotTakenForPacket(c, "R8")
 	checkHandleValidityFromTable(c, "R7")
 	d := getDispatcher(c, "R1")
 	if d == nil {
